@@ -156,6 +156,7 @@ fn run_history<A: Subject + AllPairs>(ctx: &mut Ctx, case: &Case, wl: &str) {
         let cap_before = guarded(|| a.capacity()).unwrap_or(0);
         let heap_before = a.is_heap();
         let mut applied = true;
+        let mut len_resync = false;
         if let Some(step) = step {
             if let Step::Bin(op, _, sp) = step {
                 if matches!(op, model::Op::And | model::Op::Or | model::Op::Xor) && sp.bits.len() > m_before.len() && sp.bits[m_before.len()..].iter().any(|x| *x) {
@@ -274,6 +275,7 @@ fn run_history<A: Subject + AllPairs>(ctx: &mut Ctx, case: &Case, wl: &str) {
                     // wrong bits are the business of the property owning that operation; C03 only asks
                     // whether the vector, with the bits it has, behaves like a fresh one
                     ctx.bucket("resync:bits-differ-from-model(not judged by C03)");
+                    len_resync = actual.0 != m.len();
                     m = actual.1.clone();
                 }
                 let fails = battery(ctx, &a, &m, true);
@@ -396,9 +398,16 @@ fn run_history<A: Subject + AllPairs>(ctx: &mut Ctx, case: &Case, wl: &str) {
                 }
                 if !bits_ok {
                     ctx.bucket("resync:bits-differ-from-model(not judged by C18)");
+                    len_resync = actual.0 != m.len();
                     m = actual.1.clone();
                 }
             }
+        }
+        if len_resync {
+            // the remaining steps were generated for the length the model predicted; with another length they may be
+            // invalid calls (index / range out of bounds), so the history ends here
+            ctx.bucket("history-cut-after-length-resync");
+            return;
         }
     }
 }
